@@ -87,6 +87,41 @@ def rule(cx, n=2, limits="tensor", swapped=False):
     return "ok"
 
 
+def limit_dtypes(cx, n=2, case="f32_upper"):
+    """limits given as one-element tensors of another dtype than the integrand (float32 / int64 holding exactly representable
+    values): the rule must be applied in the integrand's precision.  Differential against the same call with float64 limits;
+    the evaluation points and the result must carry the integrand's dtype (in the symbolic run this dtype tag is what decides,
+    values are exact reals; in the float64 replay the values differ at 1e-7 when the nodes are rounded to float32)."""
+    a = cx.sym("a", (1,))
+    lo, hi = 0.5, 2.5
+    if case == "f32_upper":
+        xl, xu = lo, cx.const(torch.tensor([hi], dtype=torch.float32), dtype=torch.float32)
+    elif case == "f32_both":
+        xl = cx.const(torch.tensor([lo], dtype=torch.float32), dtype=torch.float32)
+        xu = cx.const(torch.tensor([hi], dtype=torch.float32), dtype=torch.float32)
+    elif case == "int_upper":
+        lo, hi = 0.5, 2.0
+        xl, xu = lo, cx.const(torch.tensor([2], dtype=torch.int64), dtype=torch.int64)
+    else:
+        raise KeyError(case)
+    seen = []
+
+    def f(x, a_):
+        seen.append(getattr(x, "dtype", None))      # the probe call may receive the python number
+        return a_ * x ** (2 * n - 1) + x
+    with torch.no_grad():
+        res = quad(f, xl, xu, params=(a,), n=n)
+        nprobe = 1
+        pts = list(seen[nprobe:])
+        ref = quad(lambda x, a_: a_ * x ** (2 * n - 1) + x, cx.const(torch.tensor([lo], dtype=torch.float64)),
+                   cx.const(torch.tensor([hi], dtype=torch.float64)), params=(a,), n=n)
+    cx.claim_true("result has the integrand's dtype", res.dtype == torch.float64, detail=str(res.dtype))
+    cx.claim_true("the integrand is evaluated at points of its own precision", len(pts) == n and all(d == torch.float64 for d in pts),
+                  detail=str(pts))
+    cx.claim_eq("same value as with float64 limits", res, ref, tol=1e-12)
+    return "ok"
+
+
 def infinite(cx, n=2, which="both"):
     """x = tan(t) substitution: points tan(t_i), weights omega_i*(tu-tl)/2 / cos(t_i)^2"""
     xi, om = _reference_rule(n)
@@ -160,6 +195,8 @@ def configs(tier):
     for which in ("both", "upper", "lower"):
         add("infinite/n2/%s" % which, infinite, n=2, which=which)
     add("infinite/n3/both", infinite, n=3, which="both")
+    for case in ("f32_upper", "f32_both", "int_upper"):
+        add("limit_dtypes/n3/%s" % case, limit_dtypes, n=3, case=case)
     add("tuple_linear/n1", tuple_and_linear, n=1)
     add("tuple_linear/n2", tuple_and_linear, n=2)
     return cfgs
